@@ -37,6 +37,13 @@ CHECKS["C02"] = (
     "Trusts mc/sds_parser.py as the definition of valid stub syntax (ASCII identifiers, 32 reserved words + '_', '{{' opens a template string). Names/strings/doc texts outside the alphabets are not covered.",
     "6/C02",
 )
+TREES = "Package trees: one module at depth 1 or 2 (module / sub-package public or private) x declaration-letter subsets (size<=2 quick, plus larger sets thorough) over public/private function, public class with 14 member kinds, private class, enum, private enum, exception class, declarations in __init__ x 10 re-export forms at every ancestor __init__ (quick: single re-exports, chains, equal pairs; thorough: all pairs). All names carry the tree id; ~120 trees are analysed per tool run; ground truth (what exists, what is public by the C04 rule, where it may appear) is computed from the spec in mc/tree.py."
+CHECKS["C03"] = (
+    E1,
+    TREES + " Oracle: every ground-truth public declaration has exactly one stub declaration of the right kind with its Python name (or public alias), with the right enclosing-class chain, in a stub announcing its own module or a re-exporting package. 3.6e3 trees quick, 1.15e4 thorough; exhaustive within the bound.",
+    "Publicity rule as read from the C04 statement; which legitimate location is chosen is not prescribed. Trees larger than the bound are not covered.",
+    "6/C03",
+)
 NOT_YET = {}  # id -> reason (filled for properties without a check)
 
 props = [json.loads(l) for l in open(V / "properties.jsonl")]
